@@ -29,6 +29,18 @@ def run_property(pid, tier="quick", seed=0, tree=None, write=True, quiet=False):
     if tier == "thorough":
         for fn in getattr(mod, "THOROUGH_RULES", []):
             run.run_rule(fn, tree)
+        if tree.overlay == {} and not os.environ.get("VERIF_NO_SELFTEST"):
+            # mutation self-test of this property's rules on in-memory overlays of the CURRENT tree: reported in the
+            # evidence; it never changes the verdict on /repo (a stale overlay only means the source moved on)
+            try:
+                from .selftest import battery
+                res = battery(only_props=[pid])
+                summary = {"mutants": len(res), "killed": sum(1 for r in res if r[2] == "killed"),
+                           "survived": [r[1] for r in res if r[2] == "SURVIVED"], "stale": [r[1] for r in res if r[2] == "stale"],
+                           "killed_by_this_property": sum(1 for r in res if r[4].get(pid) == 1)}
+                run.extra["selftest"] = summary
+            except Exception as e:  # never let the self-test break a check
+                run.extra["selftest"] = {"error": "%s: %s" % (type(e).__name__, e)}
     run.finish(mod.EXPLANATION, mod.NOT_DECIDED, getattr(mod, "TRUSTED", ()), write=write)
     return run
 
